@@ -1345,6 +1345,48 @@ fn main_run(report: &mut Report) {
         return;
     }
 
+    // ---- the assumption `DepSound` of the theorem, tested on the real T: editing or deleting an
+    // existing file other than the source and its reported dependencies does not change T
+    {
+        let mut entries: Vec<((usize, FsState, usize), Arc<TRes>)> =
+            t_cache().lock().unwrap().iter().map(|(k, v)| (k.clone(), v.clone())).collect();
+        entries.sort_by(|a, b| a.0.cmp(&b.0));
+        rng.shuffle(&mut entries);
+        entries.truncate(if report.is_thorough() { 4000 } else { 400 });
+        let mut checked = 0u64;
+        for ((cfg, state, f), res) in entries {
+            for g in 0..FILES.len() {
+                if g == f || state[g].is_none() || res.deps.iter().any(|d| d == FILES[g].0) {
+                    continue;
+                }
+                let mut variants: Vec<Option<usize>> = vec![None];
+                variants.extend((0..FILES[g].1.len()).map(Some));
+                for v in variants {
+                    if v == state[g] {
+                        continue;
+                    }
+                    let mut st2 = state.clone();
+                    st2[g] = v;
+                    let res2 = measure_t(cfg, &st2, f);
+                    checked += 1;
+                    if *res2 != *res {
+                        report.violation(Violation {
+                            kind: "correspondence".into(),
+                            check: "assumption-DepSound".into(),
+                            what: format!(
+                                "T of {} under configuration {} changes when the unrelated existing file {} is {} (reported deps {:?})",
+                                FILES[f].0, cfg, FILES[g].0, if v.is_none() { "deleted" } else { "edited" }, res.deps
+                            ),
+                            input: json!({"cfg": cfg, "state": format!("{:?}", state), "file": FILES[f].0, "changed": FILES[g].0}),
+                            failing_input_found: false,
+                        });
+                    }
+                }
+            }
+        }
+        report.count("depsound_assumption_checks", checked);
+    }
+
     // ---- verdicts
     // (1) the real code breaks the property inside the proved region H10
     unexplained.sort_by_key(|(h, _)| h.len());
